@@ -27,6 +27,7 @@ type FCRound struct {
 	X        []float64 `json:"x"`
 	XTracked bool      `json:"x_tracked,omitempty"`
 	G        []float64 `json:"g"`
+	Fan      int       `json:"fan,omitempty"` // consumers of the layer output (weightedRoot)
 	Row      int       `json:"row"` // row changed for the row-independence variant
 	// after the gradient check: Update = both parameters are updated through the pointers by
 	// SGD (instead of only being reset); FreezeW / FreezeB = the parameter is then made a
@@ -72,7 +73,8 @@ func genC16(t *rapid.T) C16Case {
 		}
 		rd.X = prog.DrawValsMode(t, rd.Batch*c.F, 9+r, "std")
 		rd.XTracked = rapid.Bool().Draw(t, "xtracked")
-		rd.G = prog.DrawValsMode(t, rd.Batch*c.O, 4+r, "std")
+		rd.G = drawWeights(t, rd.Batch*c.O)
+		rd.Fan = drawFan(t)
 		rd.Row = rapid.IntRange(0, rd.Batch-1).Draw(t, "row")
 		rd.Both = rapid.IntRange(0, 2).Draw(t, "both") == 0
 		rd.Update = rapid.IntRange(0, 2).Draw(t, "update") == 0
@@ -219,7 +221,7 @@ func checkC16(c C16Case) *Failure {
 		}
 		// gradients
 		gt := lib.MustNew([]int{rd.Batch, c.O}, rd.G, false)
-		z, err := y.Mul(gt)
+		z, err := weightedRoot(y, []int{rd.Batch, c.O}, rd.G, rd.Fan)
 		if err != nil {
 			return failf("round %d: weighting failed: %v", ri, err)
 		}
@@ -369,6 +371,10 @@ type C17Case struct {
 	// after the first update and accumulates on w; 2 = w is reset, used in a new graph
 	// (w.Scale(2)) and back-propagated again.
 	Second int `json:"second,omitempty"`
+	// Others: after the weight, every other value of the program that holds a gradient (leaves
+	// and intermediate results) is updated by the same optimizer: 1 = each through a pointer
+	// variable of its own, 2 = all through the one pointer variable that served the weight
+	Others int `json:"others,omitempty"`
 }
 
 func init() { register("C17/sgd", checkC17) }
@@ -414,6 +420,9 @@ func genC17(t *rapid.T) C17Case {
 	}
 	if rapid.IntRange(0, 2).Draw(t, "second") == 0 {
 		c.Second = rapid.IntRange(1, 2).Draw(t, "secondkind")
+	}
+	if rapid.IntRange(0, 2).Draw(t, "others") == 0 {
+		c.Others = rapid.IntRange(1, 2).Draw(t, "otherskind")
 	}
 	return c
 }
@@ -523,6 +532,52 @@ func checkC17(c C17Case) *Failure {
 		}
 		if before.GV[k] != before.GV[0] {
 			uniform = false
+		}
+	}
+	if c.Others != 0 {
+		// the same optimizer now updates every other tensor of the graph that holds a gradient
+		updated := 0
+		for i := 1; i < len(lv); i++ {
+			x := lv[i]
+			if x.Gradient() == nil {
+				continue
+			}
+			xb, err := lib.Snap(x)
+			if err != nil {
+				return failf("value %d unreadable: %v", i, err)
+			}
+			p := &w // the pointer variable that served the weight
+			if c.Others == 1 {
+				var own tensor.Tensor
+				p = &own
+			}
+			*p = x
+			if err := opt.Update(p); err != nil {
+				return failf("Update of value %d (shape %v, has a gradient; the optimizer updated %d other tensors before) failed: %v", i, xb.Shape, updated+1, err)
+			}
+			if *p == nil || *p == x {
+				return failf("Update of value %d (shape %v; the optimizer updated %d other tensors before) did not replace the tensor behind the pointer", i, xb.Shape, updated+1)
+			}
+			xs, xv, err := lib.Read(*p)
+			if err != nil {
+				return failf("updated value %d unreadable: %v", i, err)
+			}
+			if !ref.EqShape(xs, xb.Shape) {
+				return failf("Update of value %d (the optimizer updated %d other tensors before): new tensor has shape %v, previous %v", i, updated+1, xs, xb.Shape)
+			}
+			for k := range xv {
+				want := xb.V[k] - lr*xb.GV[k]
+				if !lib.SameNum(xv[k], want) && math.Abs(xv[k]-want) > 1e-12*math.Max(math.Abs(xb.V[k]), math.Abs(lr*xb.GV[k])) {
+					return failf("Update of value %d (the optimizer updated %d other tensors before): [%d] = %v, w - lr*g = %v - %v*%v = %v", i, updated+1, k, xv[k], xb.V[k], lr, xb.GV[k], want)
+				}
+			}
+			if xa, err := lib.Snap(x); err != nil || !xb.Equal(xa) {
+				return failf("Update changed the previous tensor object (value %d) or its gradient", i)
+			}
+			updated++
+		}
+		if updated > 0 {
+			evid.Class(fmt.Sprintf("C17.one_optimizer_several_tensors_kind=%d", c.Others))
 		}
 	}
 	if c.Second != 0 && c.P.Leaves[0].Tracked {
